@@ -100,10 +100,19 @@ func (m *Model) judgeBurn(c *Call, v *Verdict, args [][]byte) {
 	m.flagChecks(v, c, c.Caller, token, suffix, "ESDTBurn")
 	v.Charge = u64p(m.gas(c.Shard, "ESDTBurn"))
 	v.Apply = func(res *Result) []Clause {
+		var out []Clause
 		d := new(big.Int).Neg(value)
 		acc.add(suffix, d, nil)
 		m.addSupply(suffix, d)
-		return nil
+		// a contract's burn is reported to the system contract by an emitted ESDTBurn message: what it encodes is the
+		// token and the amount that were burnt (the amount compared as a number, its byte form is the encoder's choice)
+		if ot := firstTransfer(res, c.Rcv); ot != nil && len(ot.Data) > 0 {
+			fn, margs, err := TxDecode(string(ot.Data))
+			if err != nil || fn != c.Fn || len(margs) != len(args) || !bytes.Equal(margs[0], token) || bigOf(margs[1]).Cmp(value) != 0 || !argsEqual(margs[2:], args[2:]) {
+				out = append(out, clause(pC10, "ESDTBurn/message-content", "emitted message %q does not encode the burn of %v of token %q", ot.Data, value, token))
+			}
+		}
+		return out
 	}
 }
 
@@ -119,8 +128,8 @@ func (m *Model) judgeCreate(c *Call, v *Verdict, args [][]byte) {
 		v.fail(pC03, "ESDTNFTCreate/missing-add-quantity-role", "creating quantity %v without %s", qty, vmcommon.ESDTRoleNFTAddQuantity)
 	}
 	royalties := uint32(low64(args[3]))
-	if royalties > vmcommon.MaxRoyalty {
-		v.fail(pC08, "ESDTNFTCreate/royalties", "royalties %d above %d", royalties, vmcommon.MaxRoyalty)
+	if royalties > refMaxRoyalty {
+		v.fail(pC08, "ESDTNFTCreate/royalties", "royalties %d above %d", royalties, refMaxRoyalty)
 	}
 	if !c.RetErr && m.paused(c.Shard, token) {
 		v.fail(pC04, "ESDTNFTCreate/paused", "token %q is paused on shard %d", token, c.Shard)
@@ -138,7 +147,7 @@ func (m *Model) judgeCreate(c *Call, v *Verdict, args [][]byte) {
 	suffix := suffixOf(token, nonce)
 	v.Suffixes = []string{suffix}
 	if m.IssuedAt[suffix] {
-		v.fail(pC07, "ESDTNFTCreate/nonce-reused", "nonce %d of token %q was issued before", nonce, token)
+		v.fail([]string{"C07", "C02"}, "ESDTNFTCreate/nonce-reused", "nonce %d of token %q was issued before", nonce, token)
 	}
 	v.Labels = append(v.Labels, "create")
 	v.Apply = func(res *Result) []Clause {
@@ -282,11 +291,9 @@ func (m *Model) judgePause(c *Call, v *Verdict, args [][]byte) {
 	}
 	token := args[0]
 	v.Known, v.Side, v.Named = true, "system", [][]byte{token}
-	if !isESDTSC(c.Caller) || !vmcommon.IsSystemAccountAddress(c.Rcv) || !bytes.Equal(c.Rcv, vmcommon.SystemAccountAddress) {
-		if isESDTSC(c.Caller) && vmcommon.IsSystemAccountAddress(c.Rcv) {
-			v.Known = false // a system-account look-alike address: outside the model
-			return
-		}
+	// any address that classifies as the system account stands for it: the metachain addresses each shard's copy by
+	// replacing the last byte with the shard id, and the flag lives under the canonical address on every shard
+	if !isESDTSC(c.Caller) || !refIsSystemAccount(c.Rcv) {
 		v.Apply = noEffect
 		v.Labels = append(v.Labels, "unauthorised-system-call")
 		return
@@ -388,7 +395,7 @@ func (m *Model) judgeHandOver(c *Call, v *Verdict, args [][]byte, sndLocal, dstL
 				addRoleOnce(nh, token, vmcommon.ESDTRoleNFTCreate)
 				return out
 			}
-			if m.shardOf(newHolder) == vmcommon.MetachainShardId {
+			if m.shardOf(newHolder) == refMetachainShard {
 				return out
 			}
 			nm := &Msg{Kind: "handover", Fn: c.Fn, Caller: cp(c.Rcv), Rcv: cp(newHolder), Token: cp(token), Counter: counter}
@@ -450,7 +457,7 @@ func (m *Model) judgeChangeOwner(c *Call, v *Verdict, args [][]byte, sndLocal, d
 		if msg != nil {
 			msg.Done = true
 		}
-		if sndLocal && !dstLocal && m.shardOf(c.Rcv) != vmcommon.MetachainShardId && !vmcommon.IsSmartContractAddress(c.Caller) {
+		if sndLocal && !dstLocal && m.shardOf(c.Rcv) != refMetachainShard && !refIsSC(c.Caller) {
 			m.newMsg(&Msg{Kind: "account", Fn: c.Fn, Caller: cp(c.Caller), Rcv: cp(c.Rcv), Args: args, Gas: c.Gas, CallType: c.CallType})
 		}
 		return nil
@@ -486,7 +493,7 @@ func (m *Model) judgeClaim(c *Call, v *Verdict, args [][]byte, sndLocal, dstLoca
 		if msg != nil {
 			msg.Done = true
 		}
-		if sndLocal && !dstLocal && m.shardOf(c.Rcv) != vmcommon.MetachainShardId && !vmcommon.IsSmartContractAddress(c.Caller) {
+		if sndLocal && !dstLocal && m.shardOf(c.Rcv) != refMetachainShard && !refIsSC(c.Caller) {
 			m.newMsg(&Msg{Kind: "account", Fn: c.Fn, Caller: cp(c.Caller), Rcv: cp(c.Rcv), Args: args, Gas: c.Gas, CallType: c.CallType})
 		}
 		return nil
@@ -527,7 +534,7 @@ func (m *Model) judgeSetUserName(c *Call, v *Verdict, args [][]byte, sndLocal, d
 		if msg != nil {
 			msg.Done = true
 		}
-		if isDNS && !dstLocal && m.shardOf(c.Rcv) != vmcommon.MetachainShardId {
+		if isDNS && !dstLocal && m.shardOf(c.Rcv) != refMetachainShard {
 			nm := &Msg{Kind: "account", Fn: c.Fn, Caller: cp(c.Caller), Rcv: cp(c.Rcv)}
 			ot := firstTransfer(res, c.Rcv)
 			if ot == nil {
@@ -553,7 +560,7 @@ func (m *Model) judgeSaveKeyValue(c *Call, v *Verdict, args [][]byte, sndLocal b
 	if !bytes.Equal(c.Caller, c.Rcv) {
 		v.fail(pC05, "SaveKeyValue/not-self", "SaveKeyValue addressed to another account")
 	}
-	if vmcommon.IsSmartContractAddress(c.Caller) {
+	if refIsSC(c.Caller) {
 		v.fail(pC05, "SaveKeyValue/contract-caller", "SaveKeyValue by a contract account")
 	}
 	acc := m.acc(c.Shard, c.Caller)
@@ -567,7 +574,7 @@ func (m *Model) judgeSaveKeyValue(c *Call, v *Verdict, args [][]byte, sndLocal b
 	}
 	for i := 0; i < len(args); i += 2 {
 		k, val := args[i], args[i+1]
-		if len(k) >= len(vmcommon.ElrondProtectedKeyPrefix) && string(k[:len(vmcommon.ElrondProtectedKeyPrefix)]) == vmcommon.ElrondProtectedKeyPrefix {
+		if len(k) >= len(refProtectedPrefix) && string(k[:len(refProtectedPrefix)]) == refProtectedPrefix {
 			v.fail(pC05, "SaveKeyValue/protected-key", "key %q begins with the protected prefix", k)
 		}
 		charge += uint64(len(k)+len(val)) * m.gas(c.Shard, "PersistPerByte")
